@@ -65,3 +65,76 @@ Proof.
   destruct (parse toks') as [[[lines meta]|]|] eqn:Ep; [|discriminate H|congruence].
   exists lines, meta. exact H.
 Qed.
+
+(* ---------- the compiler proper ---------- *)
+From GM Require Import Sim C14Proof SubstFuel.
+
+Lemma eval_assertions_ends m c lines :
+  graph_has_cycle (build_graph (c_values c)) = Some false -> eval_assertions m c lines <> None.
+Proof.
+  intros Hc. induction lines as [|ln t IH]; cbn [eval_assertions]; [discriminate|].
+  destruct (sl_typ ln); try exact IH.
+  destruct (has_prefix (s2t ";assert") (sl_comment ln)); [|exact IH].
+  assert (Ha : eval_assert m c (skipn 7 (sl_comment ln)) <> None).
+  { unfold eval_assert. destruct (lex_ascii_total (skipn 7 (sl_comment ln))) as [toks [El _]]. rewrite El.
+    pose proof (expand_expression_acyclic m c 0 (removelast toks) Hc) as Hx.
+    destruct (expand_expression (expand_fuel c) m c 0 (removelast toks)) as [[e|]|]; [|discriminate|congruence].
+    destruct (evaluate_expression e); discriminate. }
+  destruct (eval_assert m c (skipn 7 (sl_comment ln))) as [[v| |]|]; try discriminate; [exact IH|congruence].
+Qed.
+
+Lemma assemble_line_fuel cfg values resolved labels se ln :
+  expand_expressions values (build_graph values) = Some (Some resolved) ->
+  assemble_line cfg (mkC resolved labels se) ln <> AFuel.
+Proof.
+  intros E. unfold assemble_line.
+  set (c := mkC resolved labels se).
+  assert (Hx : forall e, expand_expression (expand_fuel c) (Z.of_N (c_size cfg)) c (sl_codeline ln) e <> None)
+    by (intros e; apply (expand_expression_resolved _ values); exact E).
+  cbv zeta.
+  destruct (match sl_amode ln with [] => _ | _ => _ end); [|discriminate].
+  destruct (match sl_bmode ln with [] => _ | _ => _ end); [|discriminate].
+  match goal with |- match ?x with Some _ => _ | None => AErr end <> _ => destruct x as [[o md]|]; [|discriminate] end.
+  destruct (expand_expression (expand_fuel c) (Z.of_N (c_size cfg)) c (sl_codeline ln) (sl_a ln)) as [[x|]|] eqn:Ea;
+    [|discriminate|exfalso; apply (Hx (sl_a ln)); exact Ea].
+  destruct (evaluate_expression x); try discriminate.
+  destruct (sl_b ln) as [|b0 bs]; [destruct o; discriminate|].
+  destruct (expand_expression (expand_fuel c) (Z.of_N (c_size cfg)) c (sl_codeline ln) (b0 :: bs)) as [[y|]|] eqn:Eb;
+    [|discriminate|exfalso; apply (Hx (b0 :: bs)); exact Eb].
+  destruct (evaluate_expression y); discriminate.
+Qed.
+
+Lemma assemble_all_fuel cfg values resolved labels se :
+  expand_expressions values (build_graph values) = Some (Some resolved) ->
+  forall lines acc, assemble_all cfg (mkC resolved labels se) lines acc <> inl AFuel.
+Proof.
+  intros E. induction lines as [|ln t IH]; intros acc; cbn [assemble_all]; [discriminate|].
+  destruct (sl_typ ln); try apply IH.
+  pose proof (assemble_line_fuel cfg values resolved labels se ln E) as Hl.
+  destruct (assemble_line cfg (mkC resolved labels se) ln); try (intros X; inversion X; fail); [apply IH|congruence].
+Qed.
+
+Theorem compile_ends cfg lines meta : compile cfg lines meta <> COutOfFuel.
+Proof.
+  unfold compile. destruct (negb (validate cfg)); [discriminate|].
+  set (c0 := load_symbols cfg lines). set (g := build_graph (c_values c0)).
+  pose proof (cycle_check_total g) as Hc.
+  destruct (graph_has_cycle g) as [[|]|] eqn:Eg; [discriminate| |congruence].
+  pose proof (eval_assertions_ends (Z.of_N (c_size cfg)) c0 lines Eg) as Ha.
+  destruct (eval_assertions (Z.of_N (c_size cfg)) c0 lines) as [[v| |]|]; try discriminate; [|congruence].
+  pose proof (expand_expressions_total (c_values c0) g Eg (build_graph_length _)) as Hx.
+  destruct (expand_expressions (c_values c0) g) as [[resolved|]|] eqn:Ex; [|discriminate|congruence].
+  pose proof (assemble_all_fuel cfg (c_values c0) resolved (c_labels c0) (c_startexpr c0) Ex lines []) as Hl.
+  destruct (assemble_all cfg _ lines []) as [[]|code]; try discriminate; [congruence|].
+  destruct (_ <? _); [discriminate|].
+  pose proof (expand_expression_resolved (Z.of_N (c_size cfg)) (c_values c0) resolved (c_labels c0) (c_startexpr c0) 0 (c_startexpr c0) Ex) as Hs.
+  cbn [c_startexpr] in *.
+  destruct (expand_expression _ _ _ 0 (c_startexpr c0)) as [[se|]|]; [|discriminate|congruence].
+  destruct (evaluate_expression se); try discriminate. destruct (_ || _)%bool; discriminate.
+Qed.
+
+(* C05 at full strength on the model: assembling never runs out of fuel, whatever the input *)
+Theorem compile_warrior_ends cfg inp : compile_warrior cfg inp <> COutOfFuel.
+Proof.
+  intros H. destruct (compile_warrior_fuel cfg inp H) as [lines [meta Hc]]. apply (compile_ends cfg lines meta Hc).
+Qed.
